@@ -599,7 +599,7 @@ def mask(R):
     f2 = R.func(q2)
     kparam, dparam = f2.params[0], f2.params[1]
     unpack = [s for s in own_nodes(f2.node) if isinstance(s, ast.Assign) and isinstance(s.targets[0], ast.Tuple)]
-    need(len(unpack) == 1, 'mask_payload: table unpack not found')
+    need(len(unpack) >= 1, 'mask_payload: table unpack not found')     # (several: a block-wise path - judged by the lane rules)
     names = [e.id for e in unpack[0].targets[0].elts]
     v = unpack[0].value
     g2 = R.cfg(q2)
@@ -716,6 +716,16 @@ def private(R):
                     fresh = isinstance(a, ast.Call) and U(a.func) in ('bytearray', 'bytes') and len(a.args) == 1
                     if not fresh:
                         copies = False
+                        # a buffer that lives in the session (or anywhere longer than the call) is filled and masked outside
+                        # the write lock: two sends at once build their frames in the same bytes
+                        from .common import g_rd
+                        for (oe, on) in g_rd(g).origins(n, a):
+                            if isinstance(oe, ast.Attribute) or (isinstance(oe, ast.Subscript) and isinstance(oe.value, ast.Attribute)):
+                                R.ob('C03.private', 'the frame payload buffer belongs to one send', False,
+                                     '%s() builds the frame in `%s`, a buffer kept between calls: it is filled and masked before '
+                                     'the write lock is taken, so a second send on another thread overwrites the payload of the '
+                                     'first while its frame is being built (header of one, bytes of the other on the wire)'
+                                     % (q.rsplit('.', 1)[1], U(oe)), func=q, node=c, construct='shared payload buffer %s' % U(oe))
     if copies:
         R.ob('C03.private', 'session.send copies the payload', True, 'bytearray(data) made in send()/send_compressed()',
              func=SEND, node=None)
